@@ -13,14 +13,19 @@
    for variables holding secret integers: afterwards every such variable holds backup + cond * (value - backup), every other
    variable of the dictionary is untouched (C09_merge_at_block_exit; it assumes Python's "a is b implies a == b" for the
    identity shortcut of if_then_else).
-   Not proved in Coq: that Model/Prog.v's model of the block API (gen_top / ctx_enter / ctx_exit / ctx_while, which also
-   carries the constraints, the guards, object identities and the nodefvals bookkeeping) refines this value-level core;
+   For the whole if-block of the model ( if _if(c): body ; _endif() ) there is a Hoare rule (C09_if_block_rule, any body) and its
+   instance for a conditional assignment (C09_conditional_assignment).
+   The rule for if / else is C09_if_else_block_rule.
+   The rule for the while loop (with a loop invariant over the accumulated condition) is C09_while_loop_rule.
+   _breakif: C09_breakif_rule.
+   Not proved in Coq: the same rules for elif chains and for blocks, and variables holding other kinds than secret
+   integers (the model of these -- ctx_while, nodefvals bookkeeping, object identities -- is compared with the code trace for trace);
    that model is tied to the code by the trace correspondence, and the check compares every generated program with a
    native-control-flow twin, evaluates the constraints on the witness and compares shapes across branch choices. *)
 From Coq Require Import ZArith List Bool Lia Znumtheory.
 From PySnark.Base Require Import FieldZ.
 From PySnark.Model Require Import Lc Sym Good Gadgets Api Prog.
-From PySnark.Proofs Require Import BranchCore Meta FieldOk Wp WpBase GadgetsOK Values OpValues ProgOK Complete MergeValues.
+From PySnark.Proofs Require Import BranchCore Meta FieldOk Wp WpBase GadgetsOK Values OpValues ProgOK Complete MergeValues IfRule.
 Import ListNotations.
 Open Scope Z_scope.
 
@@ -62,6 +67,116 @@ Theorem C09_block_exit_restores_and_merges : forall (p : Z), prime p -> forall i
      Q (r, []) s' sg') ->
   Wp.wp ins ig (ctx_exit c cx (map (fun nt => (fst nt, PLC (snd nt))) new)) s sg Q.
 Proof. intros p Hp ins ig c. exact (ctx_exit_value ins ig c). Qed.
+(* A Hoare rule for the whole oblivious if-block of the model ( if _if(cond): body ; _endif() ), for ANY body: if the body, started in
+   any state reached by entering the block (guard installed, backup taken), completes with the same context stack and secret-integer
+   variables [news] (specification R), then the block as a whole completes with every variable holding
+   old + cond * (new - old): the value at the end of the body when cond = 1 and the value from before the block when cond = 0, i.e. what the
+   native `if cond: body` computes.  Proofs/IfRule.v (entry: add_guard + backup; exit: restore_guard + BranchContext.exit's merge). *)
+Theorem C09_if_block_rule : forall (p : Z), prime p -> forall ins ig (c : cfg) (cn : nat) (thenb : list stmt) (b : @Prog.bst p) o cb (olds : list (nat * Sym.slc p)) s sg
+    (R : list (nat * Sym.slc p) -> Sym.store -> Prop) (Q : @Prog.bst p -> @Gadgets.gst p -> Sym.store -> Prop),
+  WpBase.Inv ins ig s sg -> rget (bregs b) cn = PBool o cb -> sc s cb -> bvals b = IfRule.lcs olds ->
+  (forall orig ic s1 sg1, WpBase.Inv ins ig s1 sg1 -> ext sg sg1 -> tvalid ins ig orig s1 sg1 ->
+     let cx := {| bk := KIf; bcond := PBool o cb; bbak := IfRule.lcs olds; borig := orig; bnodef := None; bicond := Some ic |} in
+     Wp.wp ins ig (gen_stmts c thenb (with_stack b (cx :: bstack b))) s1 sg1
+        (fun b2 s2 sg2 => WpBase.Inv ins ig s2 sg2 /\ ext sg1 sg2 /\ bstack b2 = cx :: bstack b /\
+           exists news, bvals b2 = IfRule.lcs news /\ NoDup (map fst news) /\ Forall (pre ins ig (IfRule.lcs olds) s2 sg2) news /\ R news sg2)) ->
+  (forall b3 s3 sg3 news sgb, WpBase.Inv ins ig s3 sg3 -> ext sg sgb -> ext sgb sg3 -> R news sgb -> bstack b3 = bstack b ->
+     (forall nm t, In (nm, t) news -> exists x f, dget (bvals b3) nm = Some (PLC x) /\ dget (IfRule.lcs olds) nm = Some (PLC f) /\ sc s3 x /\
+        Sym.veval p ins ig sg3 (sval x) = sel (Sym.veval p ins ig sg (sval cb)) (Sym.veval p ins ig sgb (sval t)) (Sym.veval p ins ig sgb (sval f))) ->
+     Q b3 s3 sg3) ->
+  Wp.wp ins ig (gen_top c (SOIf cn thenb [] None) b) s sg Q.
+Proof. intros p Hp ins ig c. exact (IfRule.oif_rule ins ig (field_ok_prime p Hp) c). Qed.
+(* the rule applied:   if _if(c): _.nm = e ; _endif()   ends with  nm = old + c * (e - old)  and every other variable unchanged, in every
+   state satisfying the invariant (any enclosing guard), for all values *)
+Theorem C09_conditional_assignment : forall (p : Z), prime p -> forall ins ig (c : cfg) (cn nm src : nat) (b : @Prog.bst p) o cb (olds : list (nat * Sym.slc p)) (t old : Sym.slc p) s sg
+    (Q : @Prog.bst p -> @Gadgets.gst p -> Sym.store -> Prop),
+  WpBase.Inv ins ig s sg -> rget (bregs b) cn = PBool o cb -> sc s cb -> bvals b = IfRule.lcs olds -> NoDup (map fst olds) ->
+  Forall (fun nt => sc s (snd nt)) olds -> rget (bregs b) src = PLC t -> sc s t -> In (nm, old) olds ->
+  (forall o', same_obj (with_oid t o') old = true -> Sym.veval p ins ig sg (sval t) = Sym.veval p ins ig sg (sval old)) ->
+  (forall b3 s3 sg3, WpBase.Inv ins ig s3 sg3 -> ext sg sg3 -> bstack b3 = bstack b ->
+     (exists x, dget (bvals b3) nm = Some (PLC x) /\
+                Sym.veval p ins ig sg3 (sval x) = sel (Sym.veval p ins ig sg (sval cb)) (Sym.veval p ins ig sg (sval t)) (Sym.veval p ins ig sg (sval old))) ->
+     (forall nm' f, nm' <> nm -> In (nm', f) olds -> exists x, dget (bvals b3) nm' = Some (PLC x) /\ Sym.veval p ins ig sg3 (sval x) = Sym.veval p ins ig sg (sval f)) ->
+     Q b3 s3 sg3) ->
+  Wp.wp ins ig (gen_top c (SOIf cn [SBSet nm src] [] None) b) s sg Q.
+Proof. intros p Hp ins ig c. exact (IfRule.oif_assign ins ig (field_ok_prime p Hp) c). Qed.
+(* ... and for a block of any number of assignments  if _if(c): _.n1 = e1; _.n2 = e2; ... ; _endif()  ([apply_asg]: the dictionary after the
+   assignments, computed): every variable ends as old + c * (assigned - old) *)
+Theorem C09_conditional_assignments : forall (p : Z), prime p -> forall ins ig (c : cfg) (cn : nat) (l : list (nat * nat)) (b : @Prog.bst p) o cb (olds news : list (nat * Sym.slc p)) s sg
+    (Q : @Prog.bst p -> @Gadgets.gst p -> Sym.store -> Prop),
+  WpBase.Inv ins ig s sg -> rget (bregs b) cn = PBool o cb -> sc s cb -> bvals b = IfRule.lcs olds -> NoDup (map fst olds) -> Forall (fun nt => sc s (snd nt)) olds ->
+  IfRule.apply_asg (bregs b) olds l = Some news ->
+  (forall src t, In src (map snd l) -> rget (bregs b) src = PLC t -> sc s t) ->
+  (forall nm t f, In (nm, t) news -> In (nm, f) olds -> same_obj t f = true -> Sym.veval p ins ig sg (sval t) = Sym.veval p ins ig sg (sval f)) ->
+  (forall b3 s3 sg3, WpBase.Inv ins ig s3 sg3 -> ext sg sg3 -> bstack b3 = bstack b ->
+     (forall nm t, In (nm, t) news -> exists x f, In (nm, f) olds /\ dget (bvals b3) nm = Some (PLC x) /\
+        Sym.veval p ins ig sg3 (sval x) = sel (Sym.veval p ins ig sg (sval cb)) (Sym.veval p ins ig sg (sval t)) (Sym.veval p ins ig sg (sval f))) ->
+     Q b3 s3 sg3) ->
+  Wp.wp ins ig (gen_top c (SOIf cn (IfRule.asg l) [] None) b) s sg Q.
+Proof. intros p Hp ins ig c. exact (IfRule.oif_assigns ins ig (field_ok_prime p Hp) c). Qed.
+(* the same for  if _if(cond): thenb ; if _else(): elseb ; _endif() :  after the then-branch is merged into [xs] (= old + cond * (mid - old)) the
+   else-body runs under the guard 1 - cond and the block ends with every variable holding  xs + (1 - cond) * (new - xs):
+   cond = 1: the then-branch's value;  cond = 0: the else-branch's value computed from the values before the block *)
+Theorem C09_if_else_block_rule : forall (p : Z), prime p -> forall ins ig (c : cfg) (cn : nat) (thenb elseb : list stmt) (b : @Prog.bst p) o cb (olds : list (nat * Sym.slc p)) s sg
+    (R1 : @Prog.bst p -> list (nat * Sym.slc p) -> Sym.store -> Prop) (R2 : @Prog.bst p -> list (nat * Sym.slc p) -> list (nat * Sym.slc p) -> Sym.store -> Prop)
+    (Q : @Prog.bst p -> @Gadgets.gst p -> Sym.store -> Prop),
+  WpBase.Inv ins ig s sg -> rget (bregs b) cn = PBool o cb -> sc s cb -> bvals b = IfRule.lcs olds ->
+  (forall orig s1 sg1, WpBase.Inv ins ig s1 sg1 -> ext sg sg1 -> tvalid ins ig orig s1 sg1 ->
+     let cx := {| bk := KIf; bcond := PBool o cb; bbak := IfRule.lcs olds; borig := orig; bnodef := None; bicond := Some (PBool 0 (bnot cb)) |} in
+     Wp.wp ins ig (gen_stmts c thenb (with_stack b (cx :: bstack b))) s1 sg1
+        (fun b2 s2 sg2 => WpBase.Inv ins ig s2 sg2 /\ ext sg1 sg2 /\ bstack b2 = cx :: bstack b /\
+           exists mids, bvals b2 = IfRule.lcs mids /\ NoDup (map fst mids) /\ Forall (pre ins ig (IfRule.lcs olds) s2 sg2) mids /\ R1 b2 mids sg2)) ->
+  (forall b2 mids xs orig sgb s3 sg3, R1 b2 mids sgb -> ext sg sgb -> ext sgb sg3 -> WpBase.Inv ins ig s3 sg3 -> tvalid ins ig orig s3 sg3 ->
+     Forall2 (IfRule.merged ins ig (IfRule.lcs olds) cb sgb s3 sg3) mids xs ->
+     let cx1 := {| bk := KIf; bcond := PBool 0 (bnot cb); bbak := IfRule.lcs xs; borig := orig; bnodef := Some []; bicond := None |} in
+     Wp.wp ins ig (gen_stmts c elseb (with_stack (with_vals b2 (IfRule.lcs xs)) (cx1 :: bstack b))) s3 sg3
+        (fun b3 s4 sg4 => WpBase.Inv ins ig s4 sg4 /\ ext sg3 sg4 /\ bstack b3 = cx1 :: bstack b /\
+           exists news, bvals b3 = IfRule.lcs news /\ NoDup (map fst news) /\ Forall (pre ins ig (IfRule.lcs xs) s4 sg4) news /\ R2 b3 xs news sg4)) ->
+  (forall b4 b3 s5 sg5 xs news sge, WpBase.Inv ins ig s5 sg5 -> ext sg sge -> ext sge sg5 -> R2 b3 xs news sge -> bstack b4 = bstack b ->
+     (forall nm t, In (nm, t) news -> exists x f, dget (bvals b4) nm = Some (PLC x) /\ dget (IfRule.lcs xs) nm = Some (PLC f) /\ sc s5 x /\
+        Sym.veval p ins ig sg5 (sval x) = sel (1 - Sym.veval p ins ig sg (sval cb)) (Sym.veval p ins ig sge (sval t)) (Sym.veval p ins ig sge (sval f))) ->
+     Q b4 s5 sg5) ->
+  Wp.wp ins ig (gen_top c (SOIf cn thenb [] (Some elseb)) b) s sg Q.
+Proof. intros p Hp ins ig c. exact (IfRule.oifelse_rule ins ig c). Qed.
+(* The oblivious while loop of the model ( k = 0; while _while(<condb>; regs[cr]) and k < iters: body; k += 1; _endwhile() ) with a loop
+   invariant J (iterations done, registers, variables, the ACCUMULATED condition = product of all conditions evaluated so far, a store):
+   if the first evaluation of the condition establishes J 0 and one iteration -- body then condition, both under the current guard --
+   re-establishes J (S k) from the merged values  old + acc * (new - old)  and the new accumulated condition acc * cond, then the loop ends
+   with J iters and the variables holding the invariant's values.  An iteration whose accumulated condition is 0 changes nothing; while
+   it is 1 the body's values are taken: what  `while cond and k < iters: body`  computes natively. *)
+Theorem C09_while_loop_rule : forall (p : Z), prime p -> forall ins ig (c : cfg) (condb body : list stmt) (cr iters : nat) (b : @Prog.bst p)
+    (J : nat -> Prog.regs (p:=p) -> list (nat * Sym.slc p) -> Sym.slc p -> Sym.store -> Prop),
+  (* one iteration *)
+  (forall k b0 cx vals o cc sgJ s1 sg1, (k < iters)%nat -> WpBase.Inv ins ig s1 sg1 -> bstack b0 = cx :: bstack b -> bvals b0 = IfRule.lcs vals -> bcond cx = PBool o cc ->
+    J k (bregs b0) vals cc sgJ -> ext sgJ sg1 ->
+    Wp.wp ins ig (gen_stmts c body b0) s1 sg1 (fun b1 s1' sg1' => Wp.wp ins ig (gen_stmts c condb b1) s1' sg1'
+      (fun b2 s2 sg2 => WpBase.Inv ins ig s2 sg2 /\ ext sg1 sg2 /\ bstack b2 = bstack b0 /\
+         exists news o' nw, bvals b2 = IfRule.lcs news /\ NoDup (map fst news) /\ Forall (pre ins ig (IfRule.lcs vals) s2 sg2) news /\
+           rget (bregs b2) cr = PBool o' nw /\ sc s2 nw /\
+           (forall xs cc' s3 sg3, WpBase.Inv ins ig s3 sg3 -> ext sg2 sg3 -> Forall2 (IfRule.merged ins ig (IfRule.lcs vals) cc sg2 s3 sg3) news xs -> sc s3 cc' ->
+              Sym.veval p ins ig sg3 (sval cc') = Sym.veval p ins ig sg2 (sval cc) * Sym.veval p ins ig sg2 (sval nw) -> J (S k) (bregs b2) xs cc' sg3)))) ->
+  forall s sg (Q : @Prog.bst p -> @Gadgets.gst p -> Sym.store -> Prop),
+  WpBase.Inv ins ig s sg ->
+  (* the first evaluation of the condition *)
+  Wp.wp ins ig (gen_stmts c condb b) s sg (fun bc s1 sg1 => WpBase.Inv ins ig s1 sg1 /\ ext sg sg1 /\ bstack bc = bstack b /\
+     exists vals o0 c0, bvals bc = IfRule.lcs vals /\ rget (bregs bc) cr = PBool o0 c0 /\ sc s1 c0 /\ NoDup (map fst vals) /\
+       Forall (fun nt => sc s1 (snd nt)) vals /\ J 0%nat (bregs bc) vals c0 sg1) ->
+  (* after the loop *)
+  (forall b4 s4 sg4 vals cc sgJ xs, WpBase.Inv ins ig s4 sg4 -> ext sg sg4 -> ext sgJ sg4 -> J iters (bregs b4) vals cc sgJ -> bstack b4 = bstack b -> bvals b4 = IfRule.lcs xs ->
+     Forall2 (fun nt nx => fst nx = fst nt /\ sc s4 (snd nx) /\ Sym.veval p ins ig sg4 (sval (snd nx)) = Sym.veval p ins ig sgJ (sval (snd nt))) vals xs -> Q b4 s4 sg4) ->
+  Wp.wp ins ig (gen_top c (SOWhile condb cr iters body) b) s sg Q.
+Proof. intros p Hp ins ig c condb body cr iters b J HS. exact (IfRule.owhile_rule ins ig c condb body cr iters b J HS). Qed.
+(* _breakif(c) inside a loop: the variables are merged under the accumulated condition and the loop continues under acc * (1 - c) *)
+Theorem C09_breakif_rule : forall (p : Z), prime p -> forall ins ig (c : cfg) (cn : nat) (b : @Prog.bst p) (cx : bctx (p:=p)) (rest : list (bctx (p:=p))) o cb (new : list (nat * Sym.slc p)) o' bc s sg
+    (Q : @Prog.bst p -> @Gadgets.gst p -> Sym.store -> Prop),
+  WpBase.Inv ins ig s sg -> bstack b = cx :: rest -> rget (bregs b) cn = PBool o' bc -> bvals b = IfRule.lcs new ->
+  tvalid ins ig (borig cx) s sg -> (bnodef cx = None \/ bnodef cx = Some []) -> bcond cx = PBool o cb -> sc s cb -> sc s bc ->
+  NoDup (map fst new) -> Forall (pre ins ig (bbak cx) s sg) new ->
+  (forall xs cc orig s' sg', WpBase.Inv ins ig s' sg' -> ext sg sg' -> tvalid ins ig orig s' sg' -> Forall2 (IfRule.merged ins ig (bbak cx) cb sg s' sg') new xs ->
+     sc s' cc -> Sym.veval p ins ig sg' (sval cc) = Sym.veval p ins ig sg (sval cb) * (1 - Sym.veval p ins ig sg (sval bc)) ->
+     Q (with_stack (with_vals b (IfRule.lcs xs)) ({| bk := KWhile; bcond := PBool 0 cc; bbak := IfRule.lcs xs; borig := orig; bnodef := Some []; bicond := None |} :: rest)) s' sg') ->
+  Wp.wp ins ig (gen_top c (SBreakIf cn) b) s sg Q.
+Proof. intros p Hp ins ig c. exact (IfRule.obreakif_rule ins ig c). Qed.
 (* the selection is the native choice on 0/1 conditions *)
 Theorem C09_selection_is_native_choice : forall t f, sel 1 t f = t /\ sel 0 t f = f.
 Proof. intros t f. split; [apply sel_1|apply sel_0]. Qed.
@@ -94,8 +209,33 @@ Example C09_model_example :
   (nth 3 (map (fun o => snd (fst o)) (outs (run 1))) 0, raised (run 1)) = (25, None).
 Proof. vm_compute. split; reflexivity. Qed.
 
+(* non-vacuity of the if / else rule at the level of the model: _.v = x; if _if(c): _.v = x*x; if _else(): _.v = x + x; _endif() *)
+Example C09_model_else_example :
+  let pr := [SInput 0 IPriv 0; SInput 1 IPrivBool 1; SBSet 7 0; SOIf 1 [SBin 2 OMul 0 0; SBSet 7 2] [] (Some [SBin 4 OAdd 0 0; SBSet 7 4]); SBGet 3 7] in
+  let run cv := model_run (p:=65537) {| bitlength := 8%nat; resolution := 0 |} pr [5; cv] false in
+  (nth 4 (map (fun o => snd (fst o)) (outs (run 0))) 0, raised (run 0)) = (10, None) /\
+  (nth 4 (map (fun o => snd (fst o)) (outs (run 1))) 0, raised (run 1)) = (25, None).
+Proof. vm_compute. split; reflexivity. Qed.
+
+(* non-vacuity of the loop rule at the level of the model: _.v = 1; _.k = n; while _while(_.k > 0) and iterations < 3: _.v = _.v * 2; _.k = _.k - 1 *)
+Example C09_model_while_example :
+  let pr := [SInput 0 IPriv 0; SConstVal 1 1; SConstVal 5 0; SBSet 7 1; SBSet 8 0;
+             SOWhile [SBGet 2 8; SBin 3 OGt 2 5] 3 3 [SBGet 4 7; SBin 6 OAdd 4 4; SBSet 7 6; SBGet 9 8; SConstVal 10 1; SBin 11 OSub 9 10; SBSet 8 11];
+             SBGet 12 7] in
+  let run n := model_run (p:=65537) {| bitlength := 8%nat; resolution := 0 |} pr [n] false in
+  (nth 26 (map (fun o => snd (fst o)) (outs (run 0))) 0, raised (run 0)) = (1, None) /\
+  (nth 26 (map (fun o => snd (fst o)) (outs (run 2))) 0, raised (run 2)) = (4, None) /\
+  (nth 26 (map (fun o => snd (fst o)) (outs (run 5))) 0, raised (run 5)) = (8, None).
+Proof. vm_compute. repeat split; reflexivity. Qed.
+
 Print Assumptions C09_oblivious_equals_native.
 Print Assumptions C09_merge_primitive.
+Print Assumptions C09_if_block_rule.
+Print Assumptions C09_conditional_assignment.
+Print Assumptions C09_if_else_block_rule.
+Print Assumptions C09_while_loop_rule.
+Print Assumptions C09_breakif_rule.
+Print Assumptions C09_conditional_assignments.
 Print Assumptions C09_merge_at_block_exit.
 Print Assumptions C09_block_exit_restores_and_merges.
 Print Assumptions C09_untouched_variables_keep_their_value.
